@@ -369,7 +369,7 @@ def threshold_program(rng):
         if rng.random() < 0.5:
             p.remove(kind)
             p.ops.append("show")
-        kind = rng.choice([kind, kind + 1])
+        kind = rng.choice([kind, kind + 1 if kind < 255 else 2])      # stays a real kind (2..255): 256 would wrap to END
     return p.finish()
 
 
